@@ -84,7 +84,22 @@ add("C20", "exploration",
     "preserves the tensor; MSE/RMSE/R2/correlation/covariance equal fsum loop definitions for every axis argument; leverage scores >=0 and sum to 1.",
     "Trusted: brute force over R! matchings, math.fsum. R2 accepted centred or uncentred, ddof 0 or 1 accepted.")
 
-READY = ["C01", "C05", "C06", "C09", "C12", "C16", "C17", "C19", "C20"]
+add("C08", "exploration",
+    "bounded exhaustive enumeration of (entry point x option set x shape x rank specification x stopping configuration) with structural oracles",
+    "Every decomposition entry point (functions and class wrappers) x shapes of order 2-4 incl. size-1 modes x rank specifications (int, list, 'same', fraction, over-sized, "
+    "boundary violations that must raise) x six stopping configurations that force the zero-sweep, cap and convergence exits (path recorded from the error list) x normalisation: "
+    "factor shapes, TT boundary ranks 1, closed TR ring, one orthonormal projection per PARAFAC2 slice with shared cross-product, orthonormal HOOI factors with core = projection, "
+    "left-orthogonal TT cores, unit-norm columns with the scale in weights/core when normalisation is requested, else weights all ones.",
+    "Bounds: order<=4, dims<=4, rank<=3 (+ over-sized). Tolerances 1e-8 (1e-6 symeig). Not demanded: orthonormality of a random initialisation returned with n_iter_max=0; fractional Tucker/TT/TR ranks beyond internal consistency.")
+
+add("C10", "model_checking",
+    "exploration of the iteration chains s_0..s_K (prefix runs) and convergence-exit states of the real non-negative algorithms over a complete configuration lattice, state invariant min(entry) >= 0 on the declared modes",
+    "Six non-negative algorithms x 51 option sets (inits incl. user inits with exact zeros, normalisation, sparsity, every subset of nn_modes, exact/inexact inner solves, dict "
+    "specifications) x 5 data families (signed, non-negative, sparse, integer, all-negative) x shapes x ranks; every iterate k=0..K and the convergence-exit state must have finite, "
+    "entrywise non-negative factors / weights / core on exactly the declared modes.",
+    "Bounds: order 2-4, rank<=3, K<=3 (6 thorough; 8-11 with line search). PARAFAC2 mode 1 not demanded (documented). Exact comparison (>= 0), no tolerance.", engine="HX")
+
+READY = ["C01", "C05", "C06", "C08", "C09", "C10", "C12", "C16", "C17", "C19", "C20"]
 for _p in list(CHECKS):
     if _p not in READY:
         del CHECKS[_p]
